@@ -23,7 +23,7 @@ type Pose [7]uint32 // float32 bit patterns
 type Action struct {
 	Eid, Name uint32
 	HasTs     bool
-	Ts        int64 // nanoseconds
+	Ts        int64 // microseconds since the epoch (see tsFromNanos)
 	Data      uint32
 }
 
@@ -123,18 +123,20 @@ func pbPose(p *hagallpb.Pose) Pose {
 	return Pose{b(p.Px), b(p.Py), b(p.Pz), b(p.Rx), b(p.Ry), b(p.Rz), b(p.Rw)}
 }
 
+// action timestamps travel through the harness as MICROSECONDS since the epoch (an int64 of nanoseconds ends in the
+// year 2262; the property speaks of far-future timestamps, and time.Time.UnixNano wraps beyond that year)
 func tsFromNanos(n int64) *timestamppb.Timestamp {
-	s := n / 1e9
-	ns := n % 1e9
-	if ns < 0 {
-		ns += 1e9
+	s := n / 1e6
+	us := n % 1e6
+	if us < 0 {
+		us += 1e6
 		s--
 	}
-	return &timestamppb.Timestamp{Seconds: s, Nanos: int32(ns)}
+	return &timestamppb.Timestamp{Seconds: s, Nanos: int32(us * 1000)}
 }
 
 func nanosFromTs(t *timestamppb.Timestamp) int64 {
-	return t.Seconds*1e9 + int64(t.Nanos)
+	return t.Seconds*1e6 + int64(t.Nanos)/1000
 }
 
 // ---------- integer encoding (must agree with coq/Codec.v) ----------
